@@ -381,6 +381,8 @@ class Interp(object):
             return v.cell, v.path
         if isinstance(v, BoxV):
             return v.cell, ()
+        if isinstance(v, (StrV, BytesV)) or (isinstance(v, Tok) and v.kind == "T"):
+            return Cell(v), ()     # `&str` / `&[u8; N]` constants and text tokens: reference and referent coincide
         raise Inconclusive("deref of %r" % (v,), self.where())
 
     def load(self, v):
